@@ -60,11 +60,21 @@ func (k msgServer) AddFeeToDispute(goCtx context.Context,
 	if msg.Amount.Amount.GT(fee) {
 		msg.Amount.Amount = fee
 	}
-	// dispute fee payer
-	if err := k.Keeper.DisputeFeePayer.Set(ctx, collections.Join(dispute.DisputeId, sender.Bytes()), types.PayerInfo{
+	// dispute fee payer: the same payer may pay in several instalments, which add up
+	// (the refund is pro rata over everything the payer paid)
+	payerInfo := types.PayerInfo{
 		Amount:   msg.Amount.Amount,
 		FromBond: msg.PayFromBond,
-	}); err != nil {
+	}
+	prevPayment, err := k.Keeper.DisputeFeePayer.Get(ctx, collections.Join(dispute.DisputeId, sender.Bytes()))
+	if err == nil {
+		payerInfo.Amount = prevPayment.Amount.Add(msg.Amount.Amount)
+		// if any instalment came from stake the refund goes back to stake
+		payerInfo.FromBond = prevPayment.FromBond || msg.PayFromBond
+	} else if !errors.Is(err, collections.ErrNotFound) {
+		return nil, err
+	}
+	if err := k.Keeper.DisputeFeePayer.Set(ctx, collections.Join(dispute.DisputeId, sender.Bytes()), payerInfo); err != nil {
 		return nil, err
 	}
 
